@@ -73,10 +73,10 @@ impl ScopeRef {
                     }
                 }
                 Item::Each(names, values, body) => {
-                    let s = self.clone();
-                    for value in values.evaluate(s.clone())?.iter_items() {
+                    for value in values.evaluate(self.clone())?.iter_items() {
+                        let s = Self::sub_flow(self.clone());
                         s.define_multi(names, value)?;
-                        if let Some(r) = s.clone().eval_body(body)? {
+                        if let Some(r) = s.eval_body(body)? {
                             return Ok(Some(r));
                         }
                     }
@@ -84,10 +84,10 @@ impl ScopeRef {
                 }
                 Item::For(name, range, body) => {
                     let range = range.evaluate(self.clone())?;
-                    let s = self.clone();
                     for value in range {
+                        let s = Self::sub_flow(self.clone());
                         s.define(name.clone(), value)?;
-                        if let Some(r) = s.clone().eval_body(body)? {
+                        if let Some(r) = s.eval_body(body)? {
                             return Ok(Some(r));
                         }
                     }
@@ -206,8 +206,8 @@ pub struct Scope {
     format: Format,
     /// The thing to use for `@content` in a mixin.
     content: ArcSwapOption<MixinDecl>,
-    /// True for the body of `@for` / `@while` (flow control): assignments
-    /// there may update a global variable.
+    /// True for the body of a loop (flow control): assignments there may
+    /// update a global variable.
     flow: bool,
 }
 
